@@ -134,6 +134,12 @@ def names_of(recipe):
             cols |= {new for _, new in n["map"] if new is not None}
         elif op == "concat_rows" and n.get("id_column"):
             cols.add(n["id_column"])
+        elif op == "convert_records":
+            for sp in (n["record_map"].get("blocks_in"), n["record_map"].get("blocks_out")):
+                if sp:
+                    nk = len(sp.get("control_table_keys") or [])
+                    cols |= set(sp["control_table"]["cols"]) | set(sp.get("record_keys") or [])
+                    cols |= {v for r in sp["control_table"]["rows"] for v in r[nk:]}
     return sorted(cols), sorted(tabs)
 
 
